@@ -21,8 +21,12 @@ CONSTANT MaxSteps
 Payloads == { <<"LT", "b", "GT">>, <<"AMP", "APOS", "QUOT", "PLAIN">>, <<"AMP", "l", "t", ";">>, <<"MB", "LT", "CJK">>, <<"o", "k">>,
               <<"x", "APOS", "y">>, <<"QUOT", "z">>, <<"a", "GT">>, <<"AMP">> }
 
-Starts == {"lit", "bqlit", "ctxstr", "ctxhtml", "htmler", "rawlit", "rawctx", "field", "htmlfield", "mapel", "strsel", "anyel", "helper", "strs", "anys"}
-Trusted(s) == s \in {"ctxhtml", "htmler", "rawlit", "rawctx", "htmlfield"}
+Starts == {"lit", "bqlit", "ctxstr", "ctxhtml", "htmler", "rawlit", "rawctx", "field", "htmlfield", "mapel", "strsel", "anyel", "helper", "strs", "anys",
+           "strsloop", "htmlsloop", "anysloop", "maploop"}
+Trusted(s) == s \in {"ctxhtml", "htmler", "rawlit", "rawctx", "htmlfield", "htmlsloop"}
+\* starts where the payload is the loop variable of a for over a typed Go collection of the context:
+\* the whole route (steps and sink) then sits in that loop's body
+LoopOver(s) == CASE s = "strsloop" -> "xs" [] s = "htmlsloop" -> "hs" [] s = "anysloop" -> "ys" [] s = "maploop" -> "m" [] OTHER -> ""
 
 StartExpr(s, P) ==
   CASE s = "lit"     -> Str(P)
@@ -40,9 +44,10 @@ StartExpr(s, P) ==
     [] s = "helper"  -> Call("id", <<Id("s")>>)
     [] s = "strs"    -> Id("xs")                       \* the whole []string goes to the sink
     [] s = "anys"    -> Id("ys")
+    [] OTHER         -> Id("w")                        \* the loop variable (LoopOver)
 
 DataFor(P) == [s |-> S(P), h |-> H(P), h2 |-> H(<<"LT", "i", "GT">>), hr |-> HTMLer(P), u |-> Rec([Name |-> S(P), Html |-> H(P)]),
-               m |-> M([k |-> S(P)]), xs |-> AT(<<S(P)>>, "strs"), ys |-> A(<<S(P)>>)]
+               m |-> M([k |-> S(P)]), xs |-> AT(<<S(P)>>, "strs"), ys |-> A(<<S(P)>>), hs |-> AT(<<H(P)>>, "htmls")]
 
 Steps == {"let", "catL", "catR", "catRawR", "catRawL", "catHtmlR", "arridx", "arrall", "hashidx", "fnid", "fnemit", "goid", "par"}
 \* a step turns carrier expression e into [pre: statements to put before, e: the new carrier]
@@ -99,7 +104,9 @@ RECURSIVE Route(_, _)
 Route(i, acc) == IF i > Len(steps) THEN acc
                  ELSE LET r == ApplyStep(steps[i], i, acc.e) IN Route(i + 1, [pre |-> acc.pre \o r.pre, e |-> r.e])
 Carrier == Route(1, [pre |-> <<>>, e |-> StartExpr(start, P)])
-Built(k) == LET c == Carrier s == Sink(k, c.e) IN [prog |-> <<Text(<<"^">>)>> \o c.pre \o s.prog \o <<Text(<<"$">>)>>, parts |-> s.parts]
+Built(k) == LET c == Carrier s == Sink(k, c.e) IN
+            IF LoopOver(start) = "" THEN [prog |-> <<Text(<<"^">>)>> \o c.pre \o s.prog \o <<Text(<<"$">>)>>, parts |-> s.parts]
+            ELSE [prog |-> <<Text(<<"^">>), Emit(For(IF start = "maploop" THEN "k" ELSE "", "w", Id(LoopOver(start)), c.pre \o s.prog)), Text(<<"$">>)>>, parts |-> s.parts]
 
 Init == /\ P \in Payloads /\ start \in Starts /\ steps = <<>> /\ sink = "none" /\ res = [k |-> "none"]
 AddStep == /\ sink = "none" /\ Len(steps) < MaxSteps
